@@ -11,7 +11,7 @@ W=/tmp/cs_$NAME; git -C /repo worktree remove --force $W 2>/dev/null; git -C /re
 cd $W; cp $OUT/$(basename $DEMO) $W/
 /venv/bin/python $(basename $DEMO) > $OUT/demo_without.log 2>&1; RC0=$?
 git apply $OUT/patch.diff || { echo "patch does not apply"; git -C /repo worktree remove --force $W; exit 3; }
-/tmp/baseline.sh $W > $OUT/baseline_with.log 2>&1; RCB=$?
+/verif/tools/baseline.sh $W > $OUT/baseline_with.log 2>&1; RCB=$?
 /venv/bin/python $(basename $DEMO) > $OUT/demo_with.log 2>&1; RC1=$?
 cd /verif; git -C /repo worktree remove --force $W
 echo "demo without change: exit $RC0 | baseline with change: exit $RCB ($(tail -1 $OUT/baseline_with.log)) | demo with change: exit $RC1"
@@ -28,7 +28,7 @@ p = '/verif/seeded/%s/meta.json' % name
 meta = json.load(open(p)) if os.path.exists(p) else {}
 meta.update({'name': name, 'breaks_property': prop, 'demo_exit_without_change': int(rc0), 'baseline_exit_with_change': int(rcb),
              'demo_exit_with_change': int(rc1), 'confirmed': int(rc0) == 0 and int(rcb) == 0 and int(rc1) != 0,
-             'checks_run': res.strip(), 'what_i_ran': 'tools/confirm_seed.sh: fresh worktree of /repo HEAD; demo; git apply; /tmp/baseline.sh; demo; then tools/mutrun.sh patch.diff -- <checks> (checks run against a scratch copy with the patch applied)'})
+             'checks_run': res.strip(), 'what_i_ran': 'tools/confirm_seed.sh: fresh worktree of /repo HEAD; demo; git apply; /verif/tools/baseline.sh; demo; then tools/mutrun.sh patch.diff -- <checks> (checks run against a scratch copy with the patch applied)'})
 meta.setdefault('needs_to_manifest', '')
 json.dump(meta, open(p, 'w'), indent=1)
 PY
